@@ -234,6 +234,10 @@ type Rule struct {
 	// SubType: type of the substitute object ("" = the component's own type). A wrapper of
 	// another type may implement interfaces the component itself does not.
 	SubType string `json:"subType,omitempty"`
+	// Fresh: every invocation of the rule wraps anew (object ids "sub:<slot>#<n>", n >= 2 from
+	// the second invocation on). A callback runs once per component and start, so this only
+	// shows when the container invokes a callback more often than it should.
+	Fresh bool `json:"fresh,omitempty"`
 }
 
 type Scanner struct {
